@@ -493,9 +493,28 @@ func (w *World) readSetObligations(wantProps map[string]bool, re *regexp.Regexp)
 					if typeKey(st) != tn {
 						continue
 					}
-					if st.Underlying().(*types.Struct).Field(fa.Field).Name() == fld {
-						bad = append(bad, n)
+					if st.Underlying().(*types.Struct).Field(fa.Field).Name() != fld {
+						continue
 					}
+					if rs.WritesOnly {
+						// writeset: only stores through this field address count (and addresses that escape)
+						stored := false
+						for _, ref := range *fa.Referrers() {
+							switch r := ref.(type) {
+							case *ssa.Store:
+								if r.Addr == fa {
+									stored = true
+								}
+							case *ssa.UnOp, *ssa.DebugRef:
+							default:
+								stored = true // address passed on: may be written elsewhere
+							}
+						}
+						if !stored {
+							continue
+						}
+					}
+					bad = append(bad, n)
 				}
 			}
 		}
